@@ -197,6 +197,30 @@ fn history(rep: &mut Report, orc: &mut Oracle, rng: &mut Rng, scratch: &str, hid
       _ => Cmd::Unlock,
     };
     cmds.push(c);
+    // life-cycle fragments on ONE identifier (remove, re-add, change again, purge, re-add...):
+    // multi-step sequences a uniform choice of commands rarely produces
+    if !fill && rng.chance(1, 5) {
+      let x = ids[rng.below(8) as usize];
+      let st2 = *rng.pick(&["removed", "deprecated", "valid"]);
+      let mut frag: Vec<Cmd> = Vec::new();
+      let (m1, w1) = gen_space_moc(rng);
+      frag.push(Cmd::App(x, false, m1, w1));
+      frag.push(Cmd::Chg("removed", vec![x]));
+      let (m2, w2) = gen_space_moc(rng);
+      frag.push(Cmd::App(x, x != 0 && rng.chance(1, 3), m2, w2));
+      frag.push(Cmd::Chg(st2, vec![x]));
+      if rng.chance(1, 2) {
+        let (m3, w3) = gen_space_moc(rng);
+        frag.push(Cmd::App(x, false, m3, w3));
+      }
+      if rng.chance(1, 3) {
+        frag.push(Cmd::Purge(None));
+        let (m4, w4) = gen_space_moc(rng);
+        frag.push(Cmd::App(x, false, m4, w4));
+        frag.push(Cmd::Chg(*rng.pick(&["deprecated", "valid"]), vec![x]));
+      }
+      cmds.extend(frag);
+    }
   }
   cmds.push(Cmd::Unlock);
   let line = format!("MSET 1 {} {}", cmds.len(), cmds.iter().map(|c| c.wire()).collect::<Vec<_>>().join(" "));
